@@ -126,6 +126,8 @@ type Raw struct {
 	Ts       int64
 	LeafOK   bool
 	SCT      string // "", "valid", "invalid"
+	HTTP     int    // status of the HTTP answer (0: not an HTTP submission)
+	RetryAft bool   // the answer carries a Retry-After header
 	Err      string
 	Value    int64
 	Note     string
